@@ -26,6 +26,7 @@ def run(tier, seed):
                       "where the Ideal allows several verdicts (ties, unspecified hits) the two engines are additionally not compared with each other"]
     nl, rq = (8, 60) if tier == "quick" else (80, 80)
     netcommon.corpus_stage(v, wd, seed, nl, rq)
+    vlib.scale_stage(v, wd, "C05")
     return v.finish("model_checking",
                     "all lists of <= %d rules from 23 same-bucket near-twins differing in exactly one of {exception, important, tag, regex-ness, "
                     "anchors, type, party, domain, hostname anchor, redirect, removeparam} x tag sets x 7 requests, each on engines built with "
